@@ -371,11 +371,31 @@ def run(ctx):
         known = path_atoms(ctx, p.events)
         texts = [t for t, v in known.items() if v]
         loops = [ctx.norm.xtext(e.fi, e.node.iter) for e in p.events if e.kind == "loop" and isinstance(e.node, ast.For)]
+        # the iterable may be a parameter of an inlined search helper (`find_observer(self.dispatcher.subscribers, cls)`)
+        for e in p.events:
+            if e.kind == "loop" and isinstance(e.node, ast.For) and isinstance(e.node.iter, ast.Name):
+                r_, c_, _fr = resolve_root(e, e.node.iter.id, [])
+                loops.append(".".join([r_ or ""] + list(c_)))
         singleton = any("_is_singleton" in t or "is_singleton" in t for t in texts)
         same_cls = any("isinstance(" in t for t in texts)
         over_subs = any("subscribers" in t for t in texts + loops)
         if singleton and same_cls and over_subs:
             guard.append(p.events[-1].node)
+    if guard:
+        # ... on every constructor path, also the one that does not subscribe (`subscribe=False`, subscribed by hand later)
+        for p in geng.paths(obs_init, obs):
+            if p.outcome == "raise":
+                continue
+            tested = any(e.kind == "branch" and "is_singleton" in ctx.norm.xtext(e.fi, e.node) for e in p.events)
+            if not tested:
+                last = p.events[-1] if p.events else None
+                chk.violation(
+                    "R10.c", obs_init, last.node if last is not None else None,
+                    "a path of the constructor returns without evaluating the singleton guard (an early return before it, e.g. for "
+                    "subscribe=False): a second observer of a singleton type can be created unsubscribed and subscribed by hand",
+                    loc=last.loc if last is not None else obs_init.loc(), path=p.describe(),
+                )
+                break
     if guard:
         chk.ok("R10.c", obs_init.qualname, obs_init.loc(guard[0]), "singleton guard raises before subscribing")
     else:
@@ -476,7 +496,10 @@ def run(ctx):
             if ev.kind == "write" and not ev.data.get("local"):
                 root, chain, _ = resolve_root(ev)
                 if root == "self" and chain[:1] == ["history"]:
-                    if ev.data.get("method") == "append" and ev.node.args and isinstance(ev.node.args[0], ast.Name) and ev.node.args[0].id == hu.params[1]:
+                    arg0 = ev.node.args[0] if ev.data.get("method") == "append" and ev.node.args else None
+                    # the argument may reach the append through the parameter of an inlined step (`self.record(op)`)
+                    r0 = _resolve_expr(ev, arg0) if isinstance(arg0, ast.Name) else None
+                    if r0 is not None and r0[0] == hu.params[1] and not r0[1]:
                         apps.append(ev)
                     else:
                         bad = True
@@ -504,6 +527,8 @@ def run(ctx):
     for m in hist.methods.values():
         if m in (hu, hr) or isinstance(m.node, ast.Lambda):
             continue
+        if m.name != "__init__" and only_called_from(ctx, m, {hu, hr}):
+            continue  # a step of update / reset: judged where it is inlined above
         for w in lc_h.attr_writes(m, hist):
             if w.attr != "history" or w.fi in (hu, hr):
                 continue
@@ -794,6 +819,15 @@ def _create_or_get(ctx, disp):
             atoms = path_atoms(ctx, p.events)
             a1 = atoms.get(f"isinstance({lv}, {typ})")
             a2 = atoms.get(f"{cond}({lv})")
+            if a2 is None:
+                # `if condition is None or condition(x):` taken - no condition given means every observer of the type matches
+                for e_ in p.events:
+                    t_ = e_.node if e_.kind == "branch" else None
+                    if (
+                        isinstance(t_, ast.BoolOp) and isinstance(t_.op, ast.Or) and e_.data.get("taken") is True and len(t_.values) == 2
+                        and ast.unparse(t_.values[0]).replace(" ", "") == f"{cond}isNone" and ast.unparse(t_.values[1]).replace(" ", "") == f"{cond}({lv})"
+                    ):
+                        a2 = True
             if not (a1 is True and a2 is True):
                 chk.violation(
                     "R10.e", fi, p.events[-1].node,
